@@ -718,6 +718,12 @@ func (t *Tables) Close() {
 			if strings.ContainsAny(s, "\r\n") {
 				t.HAddr = append(t.HAddr, fmt.Sprintf("String() of %q/%q contains CR/LF", a.Name, a.Address))
 			}
+			// H-name: on  DQUOTE ... DQUOTE SP "<" ... ">"  net/mail's Name is what the independent RFC 5322 reader reads
+			if ks := strings.TrimSpace(k); strings.HasPrefix(ks, "\"") && strings.HasSuffix(ks, ">") {
+				if n, ok := IntendedName(ks); ok && n != a.Name {
+					t.HAddr = append(t.HAddr, fmt.Sprintf("H-name: ParseAddress(%q).Name = %q, the RFC 5322 quoted-string reader reads %q", k, a.Name, n))
+				}
+			}
 			if b == nil || b.Name != a.Name || b.Address != a.Address {
 				t.HAddr = append(t.HAddr, fmt.Sprintf("ParseAddress(String()) of %q/%q is not the identity: %q", a.Name, a.Address, s))
 			}
